@@ -266,6 +266,8 @@ def get_it(m, v):
         v = m.load(v.cell, v.path)
     if isinstance(v, It):
         return v
+    if isinstance(v, (RangeV, Struct)) and (isinstance(v, RangeV) or v.name in ("Range", "RangeInclusive", "RangeFrom")):
+        return into_it(m, v)
     raise Unsupported(f"not an iterator: {v!r}")
 
 
@@ -295,6 +297,12 @@ def into_it(m, v):
         return RangeIt(v.lo, hi)
     if isinstance(v, Nd):
         return ListIt(v.data)
+    if isinstance(v, Struct) and v.name == "Range":
+        return RangeIt(v.fields[0], v.fields[1])
+    if isinstance(v, Struct) and v.name == "RangeFrom":
+        return RangeIt(v.fields[0], None)
+    if isinstance(v, Struct) and v.name == "RangeInclusive":
+        return RangeIt(v.fields[0], i_bin("add", v.fields[1], 1))
     if isinstance(v, Enum) and v.name == "Option":
         return ListIt([v.fields[0]] if v.variant == "Some" else [])
     raise Unsupported("into_iter of " + type(v).__name__)
@@ -1085,3 +1093,115 @@ def _sort_keys(m, c):
 @model("RangeInclusive::new")
 def _range_incl(m, c):
     return RangeV(c.args[0], c.args[1], True)
+
+
+# ================================================================== further adaptors
+class FlattenIt(It):
+    def __init__(self, inner):
+        self.inner, self.cur = inner, None
+
+    def next(self, m):
+        while True:
+            if self.cur is not None:
+                v = self.cur.next(m)
+                if v is not STOP:
+                    return v
+                self.cur = None
+            x = self.inner.next(m)
+            if x is STOP:
+                return STOP
+            self.cur = into_it(m, x)
+
+
+class TakeWhileIt(It):
+    def __init__(self, inner, f):
+        self.inner, self.f, self.done = inner, Cell(f), False
+
+    def next(self, m):
+        if self.done:
+            return STOP
+        v = self.inner.next(m)
+        if v is STOP:
+            return STOP
+        if m.decide(m.call_closure(Ref(self.f, (), True), [m.temp_ref(v)])):
+            return v
+        self.done = True
+        return STOP
+
+
+class SkipWhileIt(It):
+    def __init__(self, inner, f):
+        self.inner, self.f, self.started = inner, Cell(f), False
+
+    def next(self, m):
+        while True:
+            v = self.inner.next(m)
+            if v is STOP or self.started:
+                return v
+            if not m.decide(m.call_closure(Ref(self.f, (), True), [m.temp_ref(v)])):
+                self.started = True
+                return v
+
+
+class StepByIt(It):
+    def __init__(self, inner, n):
+        self.inner, self.n, self.first = inner, n, True
+
+    def next(self, m):
+        if self.first:
+            self.first = False
+            return self.inner.next(m)
+        for _ in range(self.n - 1):
+            if self.inner.next(m) is STOP:
+                return STOP
+        return self.inner.next(m)
+
+
+@model("Iterator::flatten")
+def _flatten(m, c):
+    return FlattenIt(get_it(m, c.args[0]))
+
+
+@model("Iterator::flat_map")
+def _flat_map(m, c):
+    return FlattenIt(MapIt(get_it(m, c.args[0]), c.args[1]))
+
+
+@model("Iterator::take_while")
+def _take_while(m, c):
+    return TakeWhileIt(get_it(m, c.args[0]), c.args[1])
+
+
+@model("Iterator::skip_while")
+def _skip_while(m, c):
+    return SkipWhileIt(get_it(m, c.args[0]), c.args[1])
+
+
+@model("Iterator::step_by")
+def _step_by(m, c):
+    return StepByIt(get_it(m, c.args[0]), m.concretize(c.args[1], 1, 64))
+
+
+@model("Iterator::inspect")
+def _inspect(m, c):
+    return get_it(m, c.args[0])
+
+
+@model("slice::windows", "slice::chunks", "slice::chunks_exact")
+def _windows(m, c):
+    r = c.args[0]
+    v = m.strip(r)
+    k = m.concretize(c.args[1], 1, 64)
+    n = len(v.items)
+    while isinstance(m.deref(r), Ref):
+        r = m.deref(r)
+    if c.cal.method == "windows":
+        rng = [(i, i + k) for i in range(0, n - k + 1)]
+    else:
+        rng = [(i, min(i + k, n)) for i in range(0, n, k) if c.cal.method == "chunks" or i + k <= n]
+    return ListIt([Ref(r.cell, r.path + (("sub", a, b),), r.mut) for a, b in rng])
+
+
+@model("slice::iter::rev")
+def _noop(m, c):
+    return c.args[0]
